@@ -447,11 +447,16 @@ func realiseBase(v J, r *Repr, path, h string) (any, error) {
 				return nil, fmt.Errorf("repr array2: length %d", len(out))
 			}
 			return [2]any{out[0], out[1]}, nil
-		case "msvalues":
-			// an ordered map whose values, in order, are the elements
+		case "msvalues", "mssize":
+			// an ordered map whose values, in order, are the elements ("mssize": its last key is called size - as an
+			// array it still is its values, that many of them)
 			ms := yaml.MapSlice{}
 			for i, e := range out {
-				ms = append(ms, yaml.MapItem{Key: fmt.Sprintf("k%d", i), Value: e})
+				key := fmt.Sprintf("k%d", i)
+				if h == "mssize" && i == len(out)-1 {
+					key = "size"
+				}
+				ms = append(ms, yaml.MapItem{Key: key, Value: e})
 			}
 			return ms, nil
 		case "anyslices": // [][]any: the element type is itself a slice type
